@@ -195,14 +195,20 @@ func (r *propRun) runJob(j Job) {
 	// run may not hit the schedule the engine found; replay the engine's schedule under the gates
 	if j.Replay == "" && j.Fn2 == "" {
 		gatedTried := map[string]int{}
+		gatedTotal := 0
 		for _, c := range batch {
 			class := c.v.Kind + "|" + c.v.ID + "|" + c.v.Known
 			if doneClass[class] || gatedTried[class] >= 2 || len(c.v.W.Trace) == 0 || (c.v.Kind != "assert" && c.v.Kind != "panic") {
 				continue
 			}
 			gatedTried[class]++
+			gatedTotal++
+			if gatedTotal > 8 {
+				break // bounded cost; one confirmed class is enough for the verdict
+			}
 			if ok, nr, _ := r.confirmGated(j, c.v); ok {
 				accept(c.v, nr)
+				break
 			}
 		}
 	}
